@@ -3,6 +3,9 @@
 //! (C03: identical results on every backend / build configuration; C14: refill4 = 4 x refill incl. the
 //! `cfg(target_endian = "big")` counter helpers, which no x86 build even compiles).
 //!   miribe <seed> <scale> [sections]
+#[path = "../../sim/src/scen/vecops_core.rs"]
+mod vecops_core;
+
 use blake_hash::{Blake224, Blake256, Blake384, Blake512};
 use c2_chacha::guts::ChaCha;
 use c2_chacha::{ChaCha12, ChaCha20, ChaCha8, Ietf, XChaCha20, XChaCha8};
@@ -167,6 +170,33 @@ fn main() {
                     out("skein512@2^32bytes", fold(&h.finalize()));
                 }
             }
+        }
+    }
+    // --- programs of vector operations on this host's machine (the generic backend on a foreign host / under Miri, SSE2
+    //     natively): byte-for-byte the same register files as on every other host ---------------------------------------
+    if on("vecops") {
+        let mut regs: vecops_core::Regs = [[0u8; 64]; 4];
+        for r in regs.iter_mut() {
+            r.copy_from_slice(&bytes(&mut s, 64));
+        }
+        for _ in 0..(150 * scale) {
+            let ty = (splitmix(&mut s) % 10) as usize;
+            let group = (splitmix(&mut s) % 12) as usize;
+            let k = (splitmix(&mut s) % 8) as u32;
+            let imm = (splitmix(&mut s) % 128) as u32; // in-range lane indices only: a refusal would end the program
+            let (dst, ia, ib) = ((splitmix(&mut s) % 4) as usize, (splitmix(&mut s) % 4) as usize, (splitmix(&mut s) % 4) as usize);
+            #[cfg(all(target_arch = "x86_64", not(miri)))]
+            unsafe {
+                use ppv_lite86::Machine;
+                vecops_core::exec(ppv_lite86::x86_64::SSE2::instance(), ty, group, k, imm, &mut regs, dst, ia, ib);
+            }
+            #[cfg(not(all(target_arch = "x86_64", not(miri))))]
+            unsafe {
+                use ppv_lite86::Machine;
+                vecops_core::exec(ppv_lite86::generic::GenericMachine::instance(), ty, group, k, imm, &mut regs, dst, ia, ib);
+            }
+            let flat: Vec<u8> = regs.iter().flat_map(|r| r.iter().copied()).collect();
+            out(vecops_core::GROUPS[group], fold(&flat));
         }
     }
     if on("jh1") {
